@@ -1,5 +1,9 @@
 import TarpcModel.Driver.C13
 import TarpcModel.Driver.Cli
+import TarpcModel.Driver.Srv
+import TarpcModel.Driver.C07
+import TarpcModel.Driver.C19
+import TarpcModel.Driver.C20
 /-
 `driver model`   : reads `script`/`op` lines on stdin, prints `script`/`op`/`obs` lines produced by
                    the Lean model (same grammar as the harness output).
@@ -12,6 +16,12 @@ def familyOf (name : String) : Option Family :=
   match name with
   | "c13" => some c13
   | "cli" => some cli
+  | "srv" => some srv
+  | "c07" => some c07
+  | "c19" => some c19
+  | "c20rr" => some c20rr
+  | "c20hash" => some c20hash
+  | "c20retry" => some c20retry
   | _ => none
 
 structure Cur where
